@@ -43,7 +43,7 @@ def _bdecode(data: bytes, start_index: int = 0) -> typing.Tuple[typing.Union[int
             key, start_index = _bdecode(data, start_index)
             value, start_index = _bdecode(data, start_index)
             decoded_dict[key] = value
-        return decoded_dict, start_index
+        return decoded_dict, start_index + 1
     else:
         split_pos = data[start_index:].find(b':') + start_index
         try:
@@ -70,7 +70,9 @@ def bdecode(data: bytes, allow_non_dict_return: typing.Optional[bool] = False) -
     if len(data) == 0:
         raise DecodeError('Cannot decode empty string')
     try:
-        result = _bdecode(data)[0]
+        result, end_pos = _bdecode(data)
+        if end_pos != len(data):
+            raise ValueError(f'{len(data) - end_pos} bytes of trailing data')
         if not allow_non_dict_return and not isinstance(result, dict):
             raise ValueError(f'expected dict, got {type(result)}')
         return result
